@@ -784,13 +784,14 @@ func ematch(axioms []string, text string) []string {
 	}
 	r1 := round()
 	out = append(out, r1...)
-	if len(out) < 20000 {
+	for k := 0; k < envInt("GOVC_EMATCH_ROUNDS", 4)-1 && len(out) < 20000 && len(r1) > 0; k++ {
 		for _, i := range r1 {
 			if t, err := parseSx(i); err == nil {
 				collect(t, nil)
 			}
 		}
-		out = append(out, round()...)
+		r1 = round()
+		out = append(out, r1...)
 	}
 	return out
 }
